@@ -29,6 +29,13 @@ if int(rnd) >= 4:
               "(object reused across calls, second epoch, state left behind by a previous call); an effect that needs an unusual but documented CONFIGURATION "
               "(constructor or generator argument that no test sets) or dtype/device/shape (batch size 1, a batch dimension of size equal to another dimension, "
               "non-contiguous or expanded tensors, float64 inputs); an interaction of two documented options. Avoid boundary-comparison flips (<, <=) unless nothing else works.")
+if int(rnd) >= 5:
+    extra += ("\n\nAdditional steer for this round: (1) look for public functions, classes, constructor arguments and branches in the anchored files (and the helpers they call) "
+              "that NO existing test calls, and prefer to plant the change there; (2) aliasing / in-place mutation of tensors the caller still holds (views, expand, shared storage, "
+              "a TensorDict updated in place and also returned); (3) numeric edge cases that are still documented-valid inputs (coordinates or times of very different magnitude, "
+              "zero-length legs, equal values / exact ties, float64 inputs, empty selections, a single customer / job / machine); (4) an option that is only wrong in combination "
+              "with ANOTHER non-default option or with a particular phase (train vs val/test); (5) instances whose size differs from the size the env / generator was constructed with; "
+              "(6) object reuse: the same env / policy / baseline / dataset object used for a second episode, epoch, file or batch of a different shape.")
 extra += f"\n\nHousekeeping: test runs create large 'data/' and 'lightning_logs/' directories inside your worktree; delete both (rm -rf {wt}/data {wt}/lightning_logs) before you finish. Use at most 4 CPU cores (e.g. OMP_NUM_THREADS=2). The test suite takes 5-10 minutes; run it in the background with output to a file and a generous timeout rather than blocking on it. Do NOT use 'git stash' (shared between worktrees of other people working in parallel): keep your changes as patch files and use 'git apply' / 'git apply -R' / 'git checkout -- rl4co'. Do not use pkill/killall with patterns that could match other people's processes.\n"
 out = f"/tmp/seed{rnd}-prompt-{pid}.txt"
 open(out, "w").write(base + extra)
